@@ -632,6 +632,64 @@ func (e *Engine) minimise(sc Scenario, ref Result, oracle string, hints [][]stri
 	return with(active), active, runs
 }
 
+// attribute is the cheap first step for a failing scenario: with every other setting left as it is, is the
+// failure reproduced when only the sites of a known culprit set keep their non-canonical order? One run per
+// hint. It is what recognises a recorded finding without depending on the minimisation budget.
+func (e *Engine) attribute(sc Scenario, ref Result, oracle string, hints [][]string) (Scenario, []string, bool) {
+	pol := func(s string) int {
+		if p, ok := sc.SitePolicy[s]; ok {
+			return p
+		}
+		return sc.DefaultPolicy
+	}
+	// A scenario that ran with the native (uncontrolled) order cannot be replayed site by site; for it the
+	// question is asked with controlled orders at the hinted sites instead.
+	variants := []struct {
+		policy int
+		seed   uint64
+	}{{-1, sc.Seed}}
+	for _, s := range e.Sites {
+		if pol(s) == Native {
+			variants = []struct {
+				policy int
+				seed   uint64
+			}{{Reversed, sc.Seed}, {Rotated, sc.Seed}, {Permuted, sc.Seed}, {Permuted, sc.Seed + 1}, {Permuted, sc.Seed + 2}}
+			break
+		}
+	}
+	for _, h := range hints {
+		for _, v := range variants {
+			x := sc
+			x.Stats = false
+			x.Seed = v.seed
+			x.DefaultPolicy = Canonical
+			x.SitePolicy = map[string]int{}
+			active := 0
+			for _, s := range h {
+				p := pol(s)
+				if v.policy >= 0 {
+					p = v.policy
+				}
+				if p != Canonical {
+					x.SitePolicy[s] = p
+					active++
+				}
+			}
+			if active != len(h) {
+				continue
+			}
+			rs, err := e.RunJob(e.Plain, []Scenario{x}, 10*time.Minute)
+			if err != nil || len(rs) != 1 {
+				continue
+			}
+			if o, _, _ := judge(x, ref, rs[0]); o == oracle {
+				return x, h, true
+			}
+		}
+	}
+	return sc, nil, false
+}
+
 func cloneMap(m map[string]int) map[string]int {
 	if m == nil {
 		return nil
@@ -914,7 +972,14 @@ func (e *Engine) Check(c *core.Ctx, filter func(Input) bool) (*core.Outcome, err
 
 	// ---- minimise and report byte/outcome failures (grouped so that one cause is minimised once;
 	// groups are minimised in parallel under a wall-clock budget, later ones reuse culprit sets found earlier)
-	sort.SliceStable(fails, func(i, j int) bool { return fails[i].it.sc.ID < fails[j].it.sc.ID })
+	sort.SliceStable(fails, func(i, j int) bool {
+		// controlled orders first: a representative that ran with the native order cannot be minimised site by site
+		ni, nj := fails[i].it.sc.DefaultPolicy == Native, fails[j].it.sc.DefaultPolicy == Native
+		if ni != nj {
+			return nj
+		}
+		return fails[i].it.sc.ID < fails[j].it.sc.ID
+	})
 	groupSeen := map[string]int{}
 	var reps []failure
 	for _, f := range fails {
@@ -934,6 +999,24 @@ func (e *Engine) Check(c *core.Ctx, filter func(Input) bool) (*core.Outcome, err
 	{
 		var hmu sync.Mutex
 		var hints [][]string
+		// culprit sets named by recorded findings come first
+		if fs, err := evid.LoadFindings(); err == nil {
+			for _, f := range fs {
+				if f.Kind != "finding" || f.Property != c.ID {
+					continue
+				}
+				var h []string
+				for id, label := range e.Labels {
+					if strings.Contains(f.Matcher, label) {
+						h = append(h, id)
+					}
+				}
+				if len(h) > 0 {
+					sort.Strings(h)
+					hints = append(hints, h)
+				}
+			}
+		}
 		budget := 150 * time.Second
 		if c.Tier == "thorough" {
 			budget = 15 * time.Minute
@@ -943,20 +1026,22 @@ func (e *Engine) Check(c *core.Ctx, filter func(Input) bool) (*core.Outcome, err
 		var mwg sync.WaitGroup
 		for i := range reps {
 			mins[i].sc = reps[i].it.sc
-			if i >= 60 {
-				continue
-			}
 			mwg.Add(1)
 			sem <- struct{}{}
 			go func(i int) {
 				defer mwg.Done()
 				defer func() { <-sem }()
-				if time.Since(mstart) > budget {
-					return
-				}
 				hmu.Lock()
 				hs := append([][]string(nil), hints...)
 				hmu.Unlock()
+				// cheap attribution to a known culprit set is not subject to the budget
+				if sc, sites, ok := e.attribute(reps[i].it.sc, refBy[reps[i].it.in.Name], reps[i].oracle, hs); ok {
+					mins[i] = minimised{sc, sites, 1, true}
+					return
+				}
+				if time.Since(mstart) > budget {
+					return
+				}
 				sc, sites, runs := e.minimise(reps[i].it.sc, refBy[reps[i].it.in.Name], reps[i].oracle, hs)
 				mins[i] = minimised{sc, sites, runs, true}
 				if len(sites) > 0 && len(sites) <= 4 {
